@@ -222,6 +222,8 @@ func genCase(r *h.Run, phase string, idx int) caseT {
 		}
 		c.Conns = append(c.Conns, cs)
 	}
+	// an OnWrittenSize handler that yields or sleeps: a delay point inside the write and flush paths
+	c.Cfg.Written = rng.Intn(3) == 0
 	return c
 }
 
